@@ -20,7 +20,7 @@ def main():
                      first_stage=['SizeFilter', 'PrefixFilter', 'PositionFilter', 'OverlapFilter'],
                      thresholds='grid', n_jobs='1, 2 (both stages)')
     ck.outside += ['edit-distance strings longer than 2 characters', 'tables beyond the bounds']
-    joins = ['jaccard_join', 'cosine_join', 'dice_join'] if quick else \
+    joins = ['jaccard_join', 'cosine_join', 'dice_join', 'overlap_join'] if quick else \
         ['jaccard_join', 'cosine_join', 'dice_join', 'overlap_coefficient_join', 'overlap_join']
     firsts = ['SizeFilter', 'PrefixFilter', 'PositionFilter', 'OverlapFilter']
     for e in joins:
